@@ -3,6 +3,7 @@
    Constants (defaultMaxMetadataBytes, filter names) are Generated/GC15.v,
    re-translated from registry/remote on every run. *)
 From Oras Require Import Base.Prelude Generated.GC15 Model.Paging Proofs.Paging.
+From Coq Require Import Permutation Sorted.
 
 (* parseLink returns exactly the text between '<' and the first '>' whatever follows *)
 Theorem C15_parse_link :
@@ -101,4 +102,147 @@ Example C15_example_referrers :
                 (fun _ => false) (ex_cfg KReferrers) 6 0 0
                 (mkUrl (b "/v2/r/referrers/d") (referrers_query (b "t1"))) [] in
   t_out t = Done /\ map fst (concat (t_pages t)) = [b "a"; b "c"; b "d"].
+Proof. vm_compute. repeat split. Qed.
+
+(* ---------- callback failure (any server, any resolver) ---------- *)
+
+(* With a failing callback the listing is the truncation of the undisturbed one: either no
+   invoked callback fails and nothing changes, or the first failing invocation m ends the
+   loop with the callback's error, exactly the first m+1 pages were delivered and the
+   requests sent are a prefix of the undisturbed requests. *)
+Theorem C15_stops_on_error :
+  forall (serve : nat -> url -> response) (resolve : url -> str -> option url) (c : cfg)
+         (cb_fail : nat -> bool) fuel i k u last,
+    let t0 := loop serve resolve (fun _ => false) c fuel i k u last in
+    let t1 := loop serve resolve cb_fail c fuel i k u last in
+    (t1 = t0 /\ forall j, (j < length (t_pages t0))%nat -> cb_fail (k + j)%nat = false) \/
+    (exists n m, t_out t1 = ErrCallback /\
+                 t_reqs t1 = firstn (S n) (t_reqs t0) /\
+                 t_pages t1 = firstn (S m) (t_pages t0) /\
+                 (m < length (t_pages t0))%nat /\
+                 cb_fail (k + m)%nat = true /\
+                 forall j, (j < m)%nat -> cb_fail (k + j)%nat = false).
+Proof. exact loop_fail_prefix. Qed.
+Print Assumptions C15_stops_on_error.
+
+(* the error is ErrCallback exactly when the last invoked callback failed; no callback is
+   invoked after a failing one *)
+Theorem C15_callback_discipline :
+  forall (serve : nat -> url -> response) (resolve : url -> str -> option url) (c : cfg)
+         (cb_fail : nat -> bool) fuel i k u last,
+    let t := loop serve resolve cb_fail c fuel i k u last in
+    ok_calls cb_fail k (t_pages t) (t_out t).
+Proof. exact loop_calls. Qed.
+Print Assumptions C15_callback_discipline.
+
+(* Referrers never hands an empty page to the callback *)
+Theorem C15_no_empty_referrers_page :
+  forall (serve : nat -> url -> response) (resolve : url -> str -> option url) (c : cfg)
+         (cb_fail : nat -> bool),
+    c_kind c = KReferrers ->
+    forall fuel i k u last,
+      Forall (fun p => p <> []) (t_pages (loop serve resolve cb_fail c fuel i k u last)).
+Proof. exact loop_no_empty_page. Qed.
+Print Assumptions C15_no_empty_referrers_page.
+
+(* ---------- the limit ---------- *)
+
+(* MaxMetadataBytes <= 0 means the (generated) default; at most that many bytes pass the
+   reader; a page is produced only from a well-formed document that fits, a larger document
+   is an error; a successful listing decoded only fitting documents. *)
+Theorem C15_limit :
+  (forall n, (n <= 0)%Z -> eff_limit n = defaultMaxMetadataBytes) /\
+  (forall n, (0 < n)%Z -> eff_limit n = n) /\
+  (forall limit total, (Z.of_N (max_read limit total) <= eff_limit limit)%Z /\ (max_read limit total <= total)%N) /\
+  (forall c rs p, handle c rs = inr p ->
+     rs_json_ok rs = true /\ (Z.of_N (rs_doc_len rs) <= eff_limit (c_limit c))%Z) /\
+  (forall c rs, (eff_limit (c_limit c) < Z.of_N (rs_doc_len rs))%Z -> exists e, handle c rs = inl e) /\
+  (forall serve resolve cb_fail c fuel i k u last,
+     let t := loop serve resolve cb_fail c fuel i k u last in
+     t_out t = Done ->
+     forall j rq, nth_error (t_reqs t) j = Some rq ->
+       rs_json_ok (serve (i + j)%nat rq) = true /\
+       (Z.of_N (rs_doc_len (serve (i + j)%nat rq)) <= eff_limit (c_limit c))%Z).
+Proof. exact limit_spec. Qed.
+Print Assumptions C15_limit.
+
+(* bytes: behind io.LimitReader a stream decoder sees at most the limit, and for a
+   self-delimiting document d (value v) followed by anything it yields v when d fits and
+   fails otherwise -- never a value decoded from a truncated document *)
+Theorem C15_limit_bytes :
+  forall (A : Type) (decode_stream : str -> option A) (d : str) (v : A) (pad : str) (limit : Z),
+    is_document A decode_stream d v ->
+    (Z.of_nat (length (seen limit (d ++ pad))) <= eff_limit limit)%Z /\
+    decode_stream (seen limit (d ++ pad)) =
+      if (Z.of_nat (length d) <=? eff_limit limit)%Z then Some v else None.
+Proof. exact limit_bytes. Qed.
+Print Assumptions C15_limit_bytes.
+
+(* limitSize (referrers tag schema path) rejects exactly the descriptors larger than the limit *)
+Theorem C15_limit_size :
+  forall limit size, limit_size_rejects limit size = true <-> (eff_limit limit < size)%Z.
+Proof. exact limit_size_spec. Qed.
+Print Assumptions C15_limit_size.
+
+(* ---------- content/oci ---------- *)
+
+(* listTags: ascending; each non-digest reference greater than last exactly as often as the
+   resolver map holds it; nothing else *)
+Theorem C15_oci_tags :
+  forall entries last,
+    Sorted sle (list_tags entries last) /\
+    Permutation (list_tags entries last) (map fst (filter (tag_listed last) entries)) /\
+    (forall t, In t (list_tags entries last) <->
+               exists d, In (t, d) entries /\ t <> d /\ (last = [] \/ str_ltb last t = true)).
+Proof. exact list_tags_spec. Qed.
+Print Assumptions C15_oci_tags.
+
+(* the iteration order of the Go map does not matter *)
+Theorem C15_oci_tags_order_independent :
+  forall entries entries' last,
+    Permutation entries entries' -> list_tags entries last = list_tags entries' last.
+Proof. exact list_tags_order_independent. Qed.
+Print Assumptions C15_oci_tags_order_independent.
+
+(* on a sorted registry an unknown [last] selects the greater items: the registry model
+   and listTags read [last] the same way *)
+Theorem C15_last_on_sorted_registry :
+  forall x L,
+    StronglySorted (fun a b0 => str_ltb (fst a) (fst b0) = true) L ->
+    x <> [] -> ~ In x (map fst L) ->
+    after x L = filter (fun it => str_ltb x (fst it)) L.
+Proof. exact after_sorted_unknown. Qed.
+Print Assumptions C15_last_on_sorted_registry.
+
+(* ---------- further examples ---------- *)
+
+(* a toy stream decoder: the value is everything up to the first '}' *)
+Fixpoint ex_decode (s : str) : option str :=
+  match s with
+  | [] => None
+  | ch :: s' => if ch =? 125 then Some [ch]
+               else match ex_decode s' with Some v => Some (ch :: v) | None => None end
+  end.
+
+Example C15_example_document : is_document str ex_decode (b "{ab}") (b "{ab}").
+Proof.
+  split.
+  - intro tail. reflexivity.
+  - intros k H. simpl in H. do 4 (destruct k as [|k]; [reflexivity|]). lia.
+Qed.
+
+Example C15_example_limit_bytes :
+  ex_decode (seen 4 (b "{ab}" ++ b "  ")) = Some (b "{ab}") /\ ex_decode (seen 3 (b "{ab}" ++ b "  ")) = None.
+Proof. split; reflexivity. Qed.
+
+Example C15_example_oci_tags :
+  list_tags [(b "v2", b "sha256:x"); (b "sha256:x", b "sha256:x"); (b "latest", b "sha256:y");
+             (b "a", b "sha256:x"); (b "v10", b "sha256:y")] (b "latest")
+  = [b "v10"; b "v2"].
+Proof. reflexivity. Qed.
+
+Example C15_example_stops :
+  let t := loop (reg_serve KTags ex_L 1 ex_ds ex_render (fun _ => [])) ex_resolve
+                (fun k => (k =? 1)%nat) (ex_cfg KTags) 9 0 0 (mkUrl (b "/v2/r/tags/list") []) [] in
+  t_out t = ErrCallback /\ map (map fst) (t_pages t) = [[b "a"]; [b "b"]] /\ length (t_reqs t) = 2%nat.
 Proof. vm_compute. repeat split. Qed.
